@@ -23,6 +23,8 @@ def run(tier, seed):
         assumptions=[
             "id() is treated as injective over all arrays ever allocated (CPython may reuse the address of a dead array; stale-id collisions are outside the model)",
             "finalizers run atomically w.r.t. the verified functions",
+            "the executor evaluates generator expressions / generator functions eagerly at their point of creation: an edit that only changes how a lazily consumed generator interleaves with its consumer's side effects (e.g. deciding 'natively read-only' lazily while locking) is invisible to the deductive layer and left to the bounded histories",
+            "a read-only view whose base is ALREADY locked by an earlier live operation is taken to have been locked by mygrad (indistinguishable from a view taken while the base was locked, which the property lets count as having its owner's flag)",
             "deductive part: per-call contracts of array_is_tracked, lock_arr_writeability, _release_lock_on_arr_writeability (counter / tracker / waiting-view tables, flag, frame) "
             "and unique_arrs_and_bases; the history-level invariant INV-L is checked boundedly (all histories <= 3/4 statements incl. both drop orders)",
         ],
